@@ -13,7 +13,7 @@ HARNESSES = [dict(name="subscriber", pkg="./pkg/config/subscriber/", test="TestV
 
 
 def route(case):
-    return ("l2gw" if case.startswith("l2gw ") else "ipoe" if case.startswith("l2fw ") else
+    return ("l2gw" if case.startswith("l2gw ") else "subscriber" if case.startswith("gpn ") else "ipoe" if case.startswith("l2fw ") else
             "configmgr" if case.startswith("cm ") else "subscriber")
 
 RULE = ("parse/cvlan: every string of length <= L (3 quick, 4 thorough) over a 16-symbol alphabet (digits 0 1 4 9, '-', "
@@ -21,11 +21,11 @@ RULE = ("parse/cvlan: every string of length <= L (3 quick, 4 thorough) over a 1
         "every one of the 25 unicode.IsSpace code points and 40 near-misses in 9+7 positions, random strings; "
         "runes: EVERY code point 0..0xFFFF (quick) / 0..0x10FFFF (thorough), surrogates excluded, in 9 positions, swept inside the harness and "
         "inside the model driver, results compared as runs; cfg: random configurations (<=5 groups incl. nil entries, "
-        "<=3 ranges, colliding/overlapping/unparseable ranges, differently spelled equal selectors) each queried on 29 "
-        "S-VLANs x 9 C-VLANs with 3 rebuilds; sweep: random configurations with wide ranges, ALL 4096x4096 pairs looked "
+        "<=3 ranges, colliding/overlapping/unparseable ranges, differently spelled equal selectors) each queried on 34 "
+        "S-VLANs x 13 C-VLANs (incl. identifiers with bits 12-15 set: 4096+vlan, 0x8000|vlan, 65535) with 3 rebuilds; sweep: random configurations with wide ranges, ALL 4096x4096 pairs looked "
         "up in the harness and compared there with a quadratic reference written in the harness, digest of the whole "
         "table compared with the digest the model computes from ref_lookup over the classes of "
-        "C14_lookup_class_invariant (12 quick / 400 thorough), plus dense sweeps (2 quick / 64 thorough) that together make every S-VLAN and every C-VLAN value an exact index key. same-group block: 100+ deterministic configurations with two ranges of ONE group on equal / overlapping S-VLANs with equal, differently spelled or different selectors (cfg cases, and inside cm sequences). l2gw: random configurations with AAA policies on groups and ranges, 45 pairs each pushed through the real internal/l2gw handleTrigger, the published AAA request's group and policy compared with the matched range's (200 quick / 3000 thorough; per-range access-types, a third of the groups mix l2gw and retail ranges); l2fw: the same configurations through the real internal/ipoe forwardToL2GW (hand-off to l2gw iff the matched group has l2gw among its access-types, at group level or on any range). cm: sequences of 2-6 candidate configurations (clean, colliding, malformed) committed through the real pkg/configmgr ConfigManager (LoadConfig+Commit; every third sequence starts with LoadStartupConfig+ApplyLoadedConfig of a YAML file) while 3 reader goroutines call LookupSubscriberGroup, built with -race: verdict (nil-ness of the error), handler applications (none for a rejected candidate) and answers after every candidate compared with the step model, every concurrent answer checked to be one accepted generation's answer as a whole and generations never to go backwards per reader (24 quick / 300 thorough). Non-trivial: parse case that is accepted, cfg/sweep/l2gw/l2fw "
+        "C14_lookup_class_invariant (12 quick / 400 thorough), plus dense sweeps (2 quick / 64 thorough) that together make every S-VLAN and every C-VLAN value an exact index key. same-group block: 100+ deterministic configurations with two ranges of ONE group on equal / overlapping S-VLANs with equal, differently spelled or different selectors (cfg cases, and inside cm sequences). l2gw: random configurations with AAA policies on groups and ranges, 45 pairs each pushed through the real internal/l2gw handleTrigger, the published AAA request's group and policy compared with the matched range's (200 quick / 3000 thorough; per-range access-types, a third of the groups mix l2gw and retail ranges); l2fw: the same configurations through the real internal/ipoe forwardToL2GW (hand-off to l2gw iff the matched group has l2gw among its access-types, at group level or on any range). cm: sequences of 2-6 candidate configurations (clean, colliding, malformed) committed through the real pkg/configmgr ConfigManager (LoadConfig+Commit; every third sequence starts with LoadStartupConfig+ApplyLoadedConfig of a YAML file) while 3 reader goroutines call LookupSubscriberGroup, built with -race: verdict (nil-ness of the error), handler applications (none for a rejected candidate) and answers after every candidate compared with the step model, every concurrent answer checked to be one accepted generation's answer as a whole and generations never to go backwards per reader (24 quick / 300 thorough; every second sequence has a fault plan: commits that fail after validation through a handler or persist failure, the candidate session is kept and re-used); gpn: group.go GetPolicyName / FindVLANConfig / MatchesSVLAN called and compared with the rescan model. Non-trivial: parse case that is accepted, cfg/sweep/l2gw/l2fw "
         "case with at least one match and one miss. Distinct: by case text.")
 TRUSTED = ["strings are modelled as lists of Unicode code points; invalid UTF-8 input is outside the model",
            "strings.ToLower is modelled on ASCII only (no other rune lower-cases to a, n or y: checked for every code "
@@ -105,9 +105,12 @@ def parse_cfg(t):
     return groups, qs
 
 
-NAMES = ["a", "b", "ab", "B", "aa", "b0", "a-", "z", "A", "Z", "_", "aB", "\u00e9", "a b"]
-QS = [(s, c) for s in list(range(8, 25)) + [0, 1, 2, 3, 4089, 4090, 4091, 4092, 4093, 4094, 4095]
-      for c in (0, 1, 99, 100, 101, 102, 4093, 4094, 4095)]
+NAMES = ["a", "b", "ab", "B", "aa", "b0", "a-", "z", "A", "Z", "_", "aB", "\u00e9", "a b", "10", "9", "Ab", "\u00e4",
+         "residential-north-0000000000001", "residential-north-0000000000002", "residential-north-000000000000"]
+# Lookup takes uint16: identifiers with bits 12-15 set (4096 + a configured VLAN, 0x8000 | vlan, 65535) must miss
+QS = [(s, c) for s in list(range(8, 25)) + [0, 1, 2, 3, 4089, 4090, 4091, 4092, 4093, 4094, 4095,
+                                             4096 + 10, 4096 + 12, 8192 + 11, 0x8000 + 10, 0xF000 + 4094, 65535]
+      for c in (0, 1, 99, 100, 101, 102, 4093, 4094, 4095, 4096, 4096 + 100, 0x8000 + 100, 65535)]
 
 
 def gen_cases(rng, tier, budget):
@@ -205,6 +208,8 @@ def gen_cases(rng, tier, budget):
             ga = "l" if rng.random() < 0.15 else "-"
             groups.append((enc(n), enc(rng.choice(pols)), ga, rs))
         cases.append(l2gw_line(groups, lqs))
+        if i % 4 == 1:
+            cases.append(l2gw_line(groups, lqs[::5], "gpn"))   # group.go's S-VLAN-only helpers, called
         if i % 2 == 0:
             cases.append(l2gw_line(groups, lqs, "l2fw"))
     # the configuration manager: sequences of candidates committed under concurrent lock-free lookups (-race)
@@ -235,7 +240,20 @@ def gen_cases(rng, tier, budget):
             if i % 12 == 0:
                 bad = [(enc("a"), [(enc("10"), enc("10")), (enc("4095"), enc(""))])]
             cfgs[0] = bad
-        cases.append(cm_line("boot" if i % 3 == 0 else "commit", cfgs, cqs))
+        # fault plan: every second sequence has commits that fail AFTER validation (handler / persist failure); the
+        # session survives and is re-used for the next candidate
+        fl = "".join(rng.choice("--AS") for _ in cfgs) if i % 2 == 1 else ""
+        cases.append(cm_line("boot" if i % 3 == 0 else "commit", cfgs, cqs, fl))
+    # deterministic: a clean candidate whose commit fails after validation, then a colliding / malformed candidate in the SAME
+    # session, then a clean one (any state kept from the first attempt must not let the second through)
+    cl1 = [(enc("a"), [(enc("10"), enc(""))])]
+    cl2 = [(enc("b"), [(enc("11"), enc("10"))])]
+    for bad in ([(enc("a"), [(enc("10"), enc("any"))]), (enc("b"), [(enc("10-11"), enc(""))])],
+                [(enc("g"), [(enc("10"), enc("100")), (enc("10"), enc(" 100"))])],
+                [(enc("g"), [(enc("4095"), enc(""))])]):
+        for f1 in "AS":
+            cases.append(cm_line("commit", [cl1, bad, cl2], cqs, f1 + "--"))
+            cases.append(cm_line("commit", [cl2, cl1, bad, bad, cl2], cqs, "-" + f1 + "-" + f1 + "-"))
     # exhaustive 4096 x 4096 sweeps
     nsw = 12 if tier == "quick" else 400
     ends = [1, 2, 3, 100, 101, 255, 256, 2047, 2048, 4000, 4093, 4094]
@@ -276,8 +294,9 @@ def _kv(s):
     return dict(x.split("=", 1) for x in s.split() if "=" in x)
 
 
-def cm_line(mode, cfgs, qs):
-    toks = ["cm", mode, str(len(cfgs))]
+def cm_line(mode, cfgs, qs, faults=None):
+    faults = (faults or "-" * len(cfgs))[:len(cfgs)].ljust(len(cfgs), "-")
+    toks = ["cm", mode, faults, str(len(cfgs))]
     for groups in cfgs:
         toks += cfg_line("x", groups).split()[1:]
     toks.append(str(len(qs)))
@@ -287,8 +306,8 @@ def cm_line(mode, cfgs, qs):
 
 
 def parse_cm(t):
-    k = int(t[2])
-    p = 3
+    k = int(t[3])
+    p = 4
     cfgs = []
     for _ in range(k):
         ng = int(t[p])
@@ -302,7 +321,7 @@ def parse_cm(t):
         cfgs.append(groups)
     nq = int(t[p])
     qs = [(t[p + 1 + 2 * j], t[p + 2 + 2 * j]) for j in range(nq)]
-    return t[1], cfgs, qs
+    return t[1], cfgs, qs, t[2]
 
 
 def l2gw_line(groups, qs, kind="l2gw"):
@@ -336,7 +355,7 @@ def nontrivial(case, out):
     k = case.split(" ", 1)[0]
     if k == "cm":
         gens = out.split(" | ")[:-1]
-        return any(g.startswith("valid:") for g in gens) and any(g.startswith("rejected:") for g in gens)
+        return any(g.startswith("valid:") for g in gens) and any(g.startswith(("rejected:", "failed:")) for g in gens)
     if k == "l2gw":
         r = out.split()
         return "none" in r and any(x != "none" for x in r)
@@ -371,6 +390,9 @@ def classify(case, impl, model):
                          "are rejected before they are published)" % (d[0], a[d[0]].split(":")[0], b[d[0]].split(":")[0]))
         return "P", "configuration manager: lookups after candidate #%s differ from the model: impl=%r model=%r" % (
             d[:1], [a[i] for i in d[:1]], [b[i] for i in d[:1]])
+    if k == "gpn":
+        return "G", ("group.go GetPolicyName / FindVLANConfig / MatchesSVLAN differ from the model of the S-VLAN-only rescan "
+                     "(no production caller since /repo 60d937f): impl=%r model=%r" % (impl[:200], model[:200]))
     if k == "l2fw":
         a, b = impl.split(), model.split()
         d = [i for i, (x, y) in enumerate(zip(a, b)) if x != y]
@@ -395,6 +417,9 @@ def classify(case, impl, model):
         iv, ir = _split(impl)
         mv, mr = _split(model)
         ik, mk = _kv(ir), _kv(mr)
+        if ik.get("high", "ok") != "ok":
+            return "P", ("exhaustive sweep: Lookup matches an identifier above 4095 (svlan:cvlan %s): bits 12-15 of a key "
+                         "component are ignored (impl %s)" % (ik.get("high"), ir))
         if ik.get("diff", "?") != "none":
             return "P", ("exhaustive sweep: Lookup differs from the quadratic reference scan at "
                          "svlan:cvlan %s (impl %s, model %s)" % (ik.get("diff"), ir, mr))
@@ -428,18 +453,20 @@ def shrink(case):
     if t[0] == "cfgnil":
         return
     if t[0] == "cm":
-        mode, cfgs, qs = parse_cm(t)
+        mode, cfgs, qs, fl = parse_cm(t)
         for i in range(len(cfgs)):
             if len(cfgs) > 1:
-                yield cm_line(mode, cfgs[:i] + cfgs[i + 1:], qs)
+                yield cm_line(mode, cfgs[:i] + cfgs[i + 1:], qs, fl[:i] + fl[i + 1:])
+        if set(fl) != {"-"}:
+            yield cm_line(mode, cfgs, qs)
         for i, groups in enumerate(cfgs):
             for j in range(len(groups)):
-                yield cm_line(mode, cfgs[:i] + [groups[:j] + groups[j + 1:]] + cfgs[i + 1:], qs)
+                yield cm_line(mode, cfgs[:i] + [groups[:j] + groups[j + 1:]] + cfgs[i + 1:], qs, fl)
         if len(qs) > 1:
-            yield cm_line(mode, cfgs, qs[:len(qs) // 2])
-            yield cm_line(mode, cfgs, qs[len(qs) // 2:])
+            yield cm_line(mode, cfgs, qs[:len(qs) // 2], fl)
+            yield cm_line(mode, cfgs, qs[len(qs) // 2:], fl)
         return
-    if t[0] in ("l2gw", "l2fw"):
+    if t[0] in ("l2gw", "l2fw", "gpn"):
         groups, qs = parse_l2gw(t)
         for i in range(len(groups)):
             yield l2gw_line(groups[:i] + groups[i + 1:], qs, t[0])
@@ -474,13 +501,15 @@ def distribution(cases, impl):
     d = {"parse": 0, "parse_ok": 0, "cvlan": 0, "cvlan_ok": 0, "cfg": 0, "cfg_rejected": 0, "lookup_hits": 0,
          "lookup_misses": 0, "cfgnil": 0, "sweep": 0, "sweep_pairs": 0, "sweep_hits": 0, "sweep_rejected": 0,
          "sweep_rowruns_max": 0, "runes": 0, "runes_code_points": 0, "l2gw": 0, "l2gw_requests": 0, "l2gw_no_request": 0,
-         "l2gw_range_policy": 0, "l2gw_group_policy_or_none": 0, "l2gw_mixed_access_groups": 0, "l2gw_group_level_access": 0, "l2fw": 0, "l2fw_fwd": 0,
+         "l2gw_range_policy": 0, "l2gw_group_policy_or_none": 0, "l2gw_mixed_access_groups": 0, "l2gw_group_level_access": 0, "gpn": 0, "l2fw": 0, "l2fw_fwd": 0,
          "l2fw_no": 0, "cm": 0, "cm_boot": 0, "cm_candidates": 0, "cm_published": 0, "cm_rejected": 0,
-         "cm_boot_rejected": 0, "cm_rejected_without_handler_call": 0, "cfg_same_group_collision": 0}
+         "cm_boot_rejected": 0, "cm_rejected_without_handler_call": 0, "cm_failed_after_validation": 0, "cm_rejected_in_reused_session": 0, "cfg_same_group_collision": 0}
     seen = set()
     for c, o in zip(cases, impl):
         k = c.split(" ", 1)[0]
         d[k] += 1
+        if k == "gpn":
+            continue
         if k == "cm":
             gens = o.split(" | ")[:-1]
             d["cm_boot"] += c.split()[1] == "boot"
@@ -488,6 +517,9 @@ def distribution(cases, impl):
             d["cm_published"] += sum(g.startswith("valid:") for g in gens)
             d["cm_rejected"] += sum(g.startswith("rejected:") for g in gens)
             d["cm_rejected_without_handler_call"] += sum(g.startswith("rejected:h0:") for g in gens)
+            d["cm_failed_after_validation"] += sum(g.startswith("failed:") for g in gens)
+            d["cm_rejected_in_reused_session"] += sum(1 for x, y in zip(gens, gens[1:])
+                                                     if x.startswith("failed:") and y.startswith("rejected:"))
             d["cm_boot_rejected"] += c.split()[1] == "boot" and gens[0].startswith("rejected:")
         elif k == "l2fw":
             r = o.split()
